@@ -187,4 +187,30 @@ example : (runV provDemo (Mon.init true false) (tamperAt 3 addPurge (traceOf1 ()
     some .purgedNotReported := by
   decide
 
+/-! ### the window between the two critical sections of `Write` -/
+
+/-- a notification is routed (WROUTE) while the stream is detached, then a resume attaches, then the delivery
+section (WDELIVER) runs: the message reaches the new exchange live, once, with the next index -/
+def demoW : List (Label Nat) :=
+  [ .post [7] false .v1125 none, .write (.notif 100) (some 7) false, .cut 0,
+    .wroute (.notif 101) (some 7) false,
+    .get (.ok 1 1) .v1125 none,
+    .wdeliver 0 ]
+
+example : ObsScopeRun (init cfgW) demoW := obsScopeRun_of_b _ _ (by decide)
+example : WellTaggedRun provDemo () (init cfgW) demoW := wellTaggedRun_of_b _ _ (by decide)
+example : ((run (init cfgW) demoW).exs.map (fun e => e.out)) =
+    [ [.prime 1 0, .message (some (1, 1)) ⟨.notif 100, some 7⟩],
+      [.message (some (1, 2)) ⟨.notif 101, some 7⟩] ] := by decide
+example : ((run (init cfgW) (demoW.take 4)).pendW.map (fun pw => (pw.sid, pw.ctx))) = [(1, some 7)] := by decide
+
+/-- the other order inside the window: the stream completes and is deleted between routing and delivery — the
+message still goes to the log (after the response), nothing is delivered -/
+def demoO : List (Label Nat) :=
+  [ .post [7] false .v1125 none, .wroute (.notif 101) (some 7) false, .write (.resp 7 200) (some 7) false, .wdeliver 0 ]
+
+example : (run (init cfgW) demoO).log 1 = [none, some ⟨.resp 7 200, some 7⟩, some ⟨.notif 101, some 7⟩] := by decide
+example : ((run (init cfgW) demoO).exs.map (fun e => e.out)) =
+    [ [.prime 1 0, .message (some (1, 1)) ⟨.resp 7 200, some 7⟩] ] := by decide
+
 end Resume
